@@ -46,6 +46,8 @@ ASSUMPTIONS = [
     "perturbative: the U series is truncated at a^(m-1), so the error is O(a^m) (documented meaning of "
     "ev_op_max_order); the flat 1e-8 of DESIGN at (12, 20) only holds for a_max <= 0.03 (measured 1.4e-5 at 0.05), "
     "hence the a^12 scaling; single-step monotonicity in m is violated by correct code (up to x2.7 at a = 0.05)",
+    "scaling exponents use the decision rule of C08 (vf/refs/k2_scaling.py; noise floor 1e-13, slack 0.25, trend "
+    "confirmation)",
     "towers with relative eigenvalue gap of gamma_0 < 1e-2 are outside the domain of the closed 2x2 exponential "
     "and discarded (counted)",
 ]
@@ -180,7 +182,7 @@ def _check_qcd(case, res):
             f"{ID}/perturbative-rate/order={n}",
             f"perturbative-exact with max_order {mo} ({where}): error does not vanish like a^{mo}: {SC.fmt(v)}",
         )
-    if v["status"] == "trivial":
+    if v["status"] in ("trivial", "undecided"):
         res.nontrivial = False
     e_m = v["D"][0]
     if amax <= 0.035:
@@ -216,7 +218,7 @@ def _check_qed(case, res):
     gamma = Q["gamma"]
     T = Q["T"]
     L = abs(math.log(a1 / a0))
-    tail = f"{case['kind']}/order={o_s},{o_em}"
+    tail = f"{case['kind']}/qed-order={o_em}"  # coarse on purpose: one kernel serves all QCD orders
     res.classes.append("aem-running" if case["kappa"] != 0 else "aem-fixed")
     res.nontrivial = R.commutator_size(gamma[1, 0], gamma[0, 1]) > 0.1 and L >= 0.3 - 1e-9
     disp = singlet_qed.dispatcher if dim == 4 else valence_qed.dispatcher
